@@ -17,8 +17,8 @@
 EXTENDS Ulp, TLC
 
 CONSTANTS Fmt, Thr, Triples
-VARIABLES x, y, z
-vars == <<x, y, z>>
+VARIABLES x, y, z, tab
+vars == <<x, y, z, tab>>
 
 MC_F36 == [p |-> 3, emax |-> 3, w |-> 6]     \* 64 patterns, 56 finite, 6 subnormal
 MC_F47 == [p |-> 4, emax |-> 3, w |-> 7]     \* 128 patterns, 112 finite, 14 subnormal
@@ -32,13 +32,15 @@ CF == {v \in Fin : v # NegZero(Fmt)}         \* one pattern per finite value
 Lattice == {v \in CF : ~IsSubnormal(Fmt, v)} \* the flushed lattice
 
 \* The value order, tabulated once from the exact values (Val, DLt) only:
-\* Rank[v] = number of distinct finite values strictly below the value of v.
-\* (TLCEval: tabulate eagerly; otherwise TLC keeps the function lazy and re-evaluates the
-\* body at every application.  ASSUMEs are evaluated before constants are cached: they do
-\* not use the tables.)
-Rank == TLCEval([v \in Fin |-> Cardinality({u \in CF : FLt(Fmt, u, v)})])
-\* the same on the flushed lattice (ranks of zeros and normals among zeros and normals)
-LRank == TLCEval([v \in {u \in Fin : ~IsSubnormal(Fmt, u)} |-> Cardinality({u \in Lattice : FLt(Fmt, u, v)})])
+\* rank[v] = number of distinct finite values strictly below the value of v;
+\* lrank = the same on the flushed lattice (zeros and normals among zeros and normals).
+\* The table is computed once in Init and carried in the state variable tab (TLC does not
+\* cache a constant definition used inside actions; TLCEval tabulates eagerly).
+Tables == TLCEval([rank |-> [v \in Fin |-> Cardinality({u \in CF : FLt(Fmt, u, v)})],
+                   lrank |-> [v \in {u \in Fin : ~IsSubnormal(Fmt, u)} |->
+                                Cardinality({u \in Lattice : FLt(Fmt, u, v)})]])
+Rank == tab.rank
+LRank == tab.lrank
 VLe(a, b) == Rank[a] <= Rank[b]
 VLt(a, b) == Rank[a] < Rank[b]
 VEq(a, b) == Rank[a] = Rank[b]
@@ -51,11 +53,11 @@ LSteps(a, b) == Abs(LRank[a] - LRank[b])
 \* one step chooses y and z.  A state with y = Unset satisfies every law trivially.
 \* Triples = FALSE restricts the states to z = y (all pairs, no proper triples).
 Unset == <<-1>>                              \* not a pattern
-Init == x \in Fin /\ y = Unset /\ z = Unset
+Init == tab = Tables /\ x \in Fin /\ y = Unset /\ z = Unset
 Choose == /\ y = Unset
           /\ y' \in {v \in Fin : VLe(x, v)}
           /\ z' \in IF Triples THEN {v \in Fin : VLe(y', v)} ELSE {y'}
-          /\ x' = x
+          /\ x' = x /\ tab' = tab
 Next == Choose
 Spec == Init /\ [][Next]_vars
 Set == y # Unset
